@@ -567,6 +567,40 @@ func (c *Ctx) keyFilterBySim(fd *ast.FuncDecl, want string, lower bool) (ok bool
 	if stores == 0 {
 		return false, "the encoder no longer builds a filtered copy of the user-keyed map", true
 	}
+	if stores != guarded {
+		// the other way round: everything is copied into a map made during the call, and that map is then walked
+		// and every key that fails the prefix test is deleted from it before it is encoded
+		filtered := false
+		for _, p := range paths {
+			for _, e := range p.effs {
+				if e.kind != "call" || e.call.call == nil || !c.isBuiltin(e.call.call, "delete") || len(e.call.args) != 2 {
+					continue
+				}
+				if _, isMade := e.call.args[0].(svFresh); !isMade {
+					continue
+				}
+				n := e.ncond
+				if n > len(p.conds) {
+					n = len(p.conds)
+				}
+				inLoop, failsTest := false, false
+				for _, cd := range p.conds[:n] {
+					if cd.loop && !cd.neg && svEqual(cd.v, e.call.args[0]) {
+						inLoop = true
+					}
+					if cd.neg && !cd.loop && isPrefixTest(cd.v) {
+						failsTest = true
+					}
+				}
+				if inLoop && failsTest {
+					filtered = true
+				}
+			}
+		}
+		if filtered {
+			return true, "", true
+		}
+	}
 	return stores == guarded, why, true
 }
 
